@@ -44,9 +44,10 @@ func (t *T0x0102) Parse(jtMsg *jt808.JTMessage) error {
 		if len(body) < 1+int(t.AuthCodeLen)+15+20 {
 			return protocol.ErrBodyLengthInconsistency
 		}
-		t.AuthCode = string(body[1 : 1+t.AuthCodeLen])
-		t.TerminalIMEI = string(body[1+t.AuthCodeLen : 1+t.AuthCodeLen+15])
-		data := body[1+t.AuthCodeLen+15 : 1+t.AuthCodeLen+15+20]
+		codeEnd := 1 + int(t.AuthCodeLen)
+		t.AuthCode = string(body[1:codeEnd])
+		t.TerminalIMEI = string(body[codeEnd : codeEnd+15])
+		data := body[codeEnd+15 : codeEnd+15+20]
 		if index := bytes.IndexByte(data, 0x00); index != -1 {
 			data = data[:index]
 		}
